@@ -40,6 +40,9 @@ structure JFeat where
   elem : Option String := none
 deriving Repr, Inhabited
 
+/-- one entry of `%TYPES`: the key (`name`) and the JSON object under it — the members `%SUPER_TYPE`, `%DESCRIPTION` when
+    they hold a string, and every member that holds a feature declaration (`feats`, keyed by `JFeat.name`, in order;
+    the keys may start with `%`: see `renderTypeDecl`, `loadEmbeddedTs`) -/
 structure JType where
   name : String
   super : String
@@ -202,10 +205,32 @@ def renderFeatDecl (K : Consts) (f : Feature) : JFeat :=
     multi := f.multi,
     elem := if arr then none else f.elem }
 
+/-- `_serialize_type`: the declaration is ONE JSON object holding the reserved members `%NAME`, `%SUPER_TYPE`,
+    `%DESCRIPTION` and one member per feature, `json_type[feature name] = feature declaration`.  `JType` stands for that
+    object: `feats` are the members that hold a feature declaration, in the order of insertion; a feature named
+    `%SUPER_TYPE` / `%DESCRIPTION` has replaced the string member of that name (`super` is then `""`, `descr` is `none`:
+    the strings are gone from the document).  A feature named `%NAME` is dealt with in `renderTypeDecls`. -/
 def renderTypeDecl (K : Consts) (t : TypeRec) : JType :=
-  { name := t.name, super := t.super.getD "",
-    descr := match t.descr with | some "" => none | d => d,
-    feats := t.own.map (renderFeatDecl K) }
+  let feats := t.own.map (renderFeatDecl K)
+  { name := t.name,
+    super := if feats.any (fun f => f.name == "%SUPER_TYPE") then "" else t.super.getD "",
+    descr := if feats.any (fun f => f.name == "%DESCRIPTION") then none
+             else match t.descr with | some "" => none | d => d,
+    feats := feats }
+
+/-- `types[json_type[NAME_FIELD]] = json_type` for the types to include, in order: a feature named `%NAME` has replaced
+    the name by its declaration, a `dict`, which is unhashable (`TypeError`) -/
+def renderTypeDecls (K : Consts) (l : List TypeRec) : Except Err (List JType) :=
+  if l.any (fun t => t.own.any (fun f => (renderFeatDecl K f).name == "%NAME")) then .error .typeError
+  else .ok (l.map (renderTypeDecl K))
+
+/-- the `%TYPES` member: absent in mode NONE -/
+def renderTypes (K : Consts) : Option (List TypeRec) → Except Err (Option (List JType))
+  | none => .ok none
+  | some l =>
+    match renderTypeDecls K l with
+    | .error e => .error e
+    | .ok d => .ok (some d)
 
 def insertByName (t : TypeRec) : List TypeRec → List TypeRec
   | [] => [t]
@@ -238,7 +263,8 @@ def saveJson (K : Consts) (ts : TypeSystem) (cass : List Cas) (ci : Nat) (hp : H
       let fuel := usedTypes.length + ((ts.types.map (fun t => 2 + 2 * (allFeatures t).length)).sum) + 1
       let names := closureStep K ts [] fuel usedTypes
       pure (some ((sortByName (names.filterMap (find? ts))).filter (fun t => t.name != DOCUMENT_ANNOTATION)))
-  pure ({ types := types.map (·.map (renderTypeDecl K)), fss := sofaFss ++ fsElems, views := views }, st)
+  let decls ← renderTypes K types
+  pure ({ types := decls, fss := sofaFss ++ fsElems, views := views }, st)
 
 /-! ## Reader -/
 
@@ -264,19 +290,28 @@ def toposort (types : List JType) : Except Err (List String) :=
           go fuel (done ++ level) (rest.filter (fun n => !(level.contains n)))
   go (names.length + 1) [] names
 
-/-- build the embedded type system -/
+/-- build the embedded type system (`deserialize`, `_parse_type`, `_parse_features`).  A declaration is read as the JSON
+    object it is (see `renderTypeDecl`): a member that holds a feature declaration and whose key starts with `%` is
+    skipped as a feature (`if key.startswith(RESERVED_FIELD_PREFIX): continue`), but under the keys `%SUPER_TYPE` and
+    `%DESCRIPTION` it is what the reader takes for the supertype name / the description. -/
 def loadEmbeddedTs (K : Consts) (types : List JType) : Except Err TypeSystem := do
   let hasDocKey := types.any (fun t => t.name == "DocumentAnnotation")
   let base := if hasDocKey then Gen.builtinTSNoDoc else Gen.builtinTS
+  -- `type_dependencies[type_name].add(json_type[SUPER_TYPE_FIELD])`: a feature declaration (a `dict`) is unhashable
+  if types.any (fun t => t.feats.any (fun f => f.name == "%SUPER_TYPE")) then throw Err.typeError
   let order ← toposort types
   let ts1 ← order.foldlM (fun (ts : TypeSystem) (n : String) =>
     if K.predefined.contains n || hasExact ts n then pure ts     -- `contains_type(name, match_exactly=True)`
     else match types.find? (fun t => t.name == n) with
-      | some jt => createType K ts n jt.super jt.descr
+      | some jt =>
+        -- `json_type.get(DESCRIPTION_FIELD)` is the declaration of the feature `%DESCRIPTION`: the type is created with
+        -- a `dict` as its description; the model has no such descriptions (NOT MODELLED from here on)
+        if jt.feats.any (fun f => f.name == "%DESCRIPTION") then throw Err.notImplemented
+        else createType K ts n jt.super jt.descr
       | none => throw Err.keyError) base
   types.foldlM (fun (ts : TypeSystem) (jt : JType) => do
     let t ← getType ts jt.name
-    jt.feats.foldlM (fun (ts : TypeSystem) (jf : JFeat) =>
+    (jt.feats.filter (fun jf => !(jf.name.startsWith "%"))).foldlM (fun (ts : TypeSystem) (jf : JFeat) =>
       let isArr := jf.range.endsWith "[]"
       let elemT := if isArr then some (String.ofList (jf.range.toList.dropLast.dropLast)) else jf.elem
       let rangeT := if isArr then arrayTypeNameFor ((elemT.getD "")) else jf.range
@@ -436,7 +471,12 @@ def parseFs (K : Consts) (ts : TypeSystem) (tsIdx : Nat) (s : RState) (j : JFs) 
               | .ok heap =>
                 .ok { s with heap := heap, fss := setFs s.fss fsId (.ref addr), deferred := deferred, maxId := max s.maxId fsId }
 
-/-- `_get_or_create_view` + `_parse_sofa` -/
+/-- `_get_or_create_view` + `_parse_sofa`.  Three cases: the initial view (exists from the start; its sofa takes the id
+    and, if given, the sofaNum of the element — every time an element names it), a view that exists already (a second
+    sofa element with that name: the view is taken as it is, id and sofaNum of the element are ignored), a new view
+    (created with the id and sofaNum of the element).  In all three the sofa data (`sofaString`, `mimeType`, `sofaURI`,
+    `sofaArray`) are set from the element (absent members reset them to `None`), and the sofa is registered in the id
+    table under the id it carries at the end. -/
 def parseSofa (ci : Nat) (s : RState) (j : JFs) : Except Err RState := do
   let fsId ← match j.id with
     | some i => pure i
@@ -448,8 +488,13 @@ def parseSofa (ci : Nat) (s : RState) (j : JFs) : Except Err RState := do
   let num := match get "sofaNum" with | some (.int n) => some n | _ => none
   let h : Handle := { view := name, lenient := false }
   let c ←
-    if name == Cas.INITIAL_VIEW || (Cas.getViewRec s.cas name).isSome then
-      Cas.updSofa s.cas h (fun so => { so with xid := fsId, sofaNum := (if name == Cas.INITIAL_VIEW then num.getD so.sofaNum else so.sofaNum) })
+    if name == Cas.INITIAL_VIEW then
+      -- the initial view exists from the start: its sofa takes the id and the sofaNum of the element (#155)
+      Cas.updSofa s.cas h (fun so => { so with xid := fsId, sofaNum := num.getD so.sofaNum })
+    else if (Cas.getViewRec s.cas name).isSome then
+      -- a second sofa element with the name of an existing view: `cas.get_view(name)` returns the view as it is,
+      -- the id and the sofaNum of the element are ignored (the sofa data below are overwritten all the same)
+      pure s.cas
     else do
       let (c', _) ← Cas.createView s.cas { view := Cas.INITIAL_VIEW, lenient := false } name (some fsId) num
       pure c'
@@ -462,7 +507,9 @@ def parseSofa (ci : Nat) (s : RState) (j : JFs) : Except Err RState := do
     | _ => .none
   let c ← Cas.setSofaArray c h arr
   let v ← Cas.cur c h
-  pure { s with cas := c, fss := setFs s.fss fsId (.sofa ci name),
+  -- `feature_structures[fs.xmiID] = fs`: the sofa is registered under the id it carries now (for a second element
+  -- with the name of an existing non-initial view that is the id of the first element, not `fsId`)
+  pure { s with cas := c, fss := setFs s.fss v.sofa.xid (.sofa ci name),
                 maxId := max s.maxId v.sofa.xid, maxNum := max s.maxNum v.sofa.sofaNum }
 
 /-- a byte array a sofa refers to is parsed before the sofa -/
